@@ -266,6 +266,16 @@ func (nopHandler) Handle(ctx context.Context, req packet.Request) (packet.Respon
 // feedAssembler lets the server-side stream assembler (listed among this property's files) see the input too: it must
 // not panic on anything that does not reach the handler, and must leave the parsers' results for other inputs alone.
 func feedAssembler(c *Case, r *mon.Rec, in []byte) {
+	// the assembler cuts frames by what the classifier says: a classifier that accepts an input as a frame shorter than
+	// the eight bytes it has just inspected (zero bytes, say) would have the assembler cut nothing off for ever
+	if len(in) >= 8 {
+		var n int
+		var cerr error
+		if p, _ := mon.Catch(func() { n, cerr = packet.LooksLikeModbusTCP(in, false) }); !p && cerr == nil && n < 8 {
+			r.Violate(c, "classifier-accepts-frame-shorter-than-header", mon.Attrs{"n": n}, fmt.Sprintf("input (%d bytes) % x: LooksLikeModbusTCP returned (%d, nil)", len(in), head(in), n))
+			return
+		}
+	}
 	a := &server.ModbusTCPAssembler{Handler: nopHandler{}}
 	cp := append([]byte{}, in...)
 	if p, txt := mon.Catch(func() { a.ReceiveRead(context.Background(), cp, len(cp)) }); p {
